@@ -221,7 +221,14 @@ class _Jac(LinearOperator):
 def connect_graph(out, params):
     # just to have a dummy graph, in case there is a parameter that
     # is disconnected in calculating df/dy
-    return out + sum([p.reshape(-1)[0] * 0 for p in params])
+    # (the sum over an empty slice is a zero that depends on p whatever p holds:
+    # an empty, infinite or complex p must not change the product)
+    for p in params:
+        zero = p.reshape(-1)[:0].sum()
+        if zero.is_complex() and not out.is_complex():
+            zero = zero.real
+        out = out + zero.to(out.dtype)
+    return out
 
 def _setup_idxs(idxs, params):
     if idxs is None:
